@@ -160,6 +160,9 @@ func genBigSync(t *rapid.T) SCase {
 	// 10 and 14 MiB are beyond msgSize: clamped by the runner while the finding below is known
 	c.TargetBytes = rapid.SampledFrom([]int{512 << 10, 2500 << 10, 5 << 20, 6 << 20, 7 << 20, 7 << 20, 10 << 20, 14 << 20}).Draw(t, "targetBytes")
 	kind := rapid.SampledFrom([]string{"full", "catchup", "catchup", "offline"}).Draw(t, "bigKind")
+	// catch-up flavours: far behind (thousands of records, the whole backlog is aimed at the target
+	// size) or big records (a few hundred records, 100 of them - one batch - are aimed at the target)
+	bigRecords := rapid.IntRange(0, 2).Draw(t, "bigRecords") != 0
 	c.RegionStorage = rapid.Bool().Draw(t, "regionStorage")
 	n := 6
 	switch kind {
@@ -169,8 +172,13 @@ func genBigSync(t *rapid.T) SCase {
 		c.PadRecords = 100
 		c.Post = genChanges(t, "npost", []int{0, 2})
 	default:
-		c.Bulk = rapid.SampledFrom([]int{1000, 3000, 9000, 9900}).Draw(t, "bulk")
-		c.PadRecords = c.Bulk + 10
+		if bigRecords {
+			c.Bulk = rapid.SampledFrom([]int{150, 200, 300}).Draw(t, "bulk")
+			c.PadRecords = 100
+		} else {
+			c.Bulk = rapid.SampledFrom([]int{1000, 3000, 9000, 9900}).Draw(t, "bulk")
+			c.PadRecords = c.Bulk + 10
+		}
 		c.BulkWhere = "pre"
 		if kind == "offline" {
 			c.BulkWhere = "offline"
@@ -303,6 +311,8 @@ type tap struct {
 	bound    chan struct{}
 	done     chan struct{} // closed when the leader's Sync call for this stream has returned
 	sending  int           // Send calls in flight
+	member   string        // name of the requesting member
+	ignore   bool          // not the observed follower's stream: pass through, no accounting
 	hasReq   bool          // the follower's request has arrived
 	reqStart uint64        // its start index
 	regions  int           // regions sent on this stream
@@ -326,12 +336,20 @@ func (t *tap) Recv() (*pdpb.SyncRegionRequest, error) {
 	if first && err == nil {
 		t.fx.mu.Lock()
 		t.hasReq, t.reqStart = true, req.GetStartIndex()
+		t.member = req.GetMember().GetName()
+		t.ignore = t.member != "follower"
 		t.fx.mu.Unlock()
 	}
 	return req, err
 }
 
 func (t *tap) Send(r *pdpb.SyncRegionResponse) error {
+	t.fx.mu.Lock()
+	ignore := t.ignore
+	t.fx.mu.Unlock()
+	if ignore {
+		return t.PD_SyncRegionsServer.Send(r)
+	}
 	m := &msg{stream: t.no, start: r.GetStartIndex(), leaders: len(r.GetRegionLeaders()), stats: len(r.GetRegionStats()), bytes: r.Size()}
 	for _, x := range r.GetRegions() {
 		m.ids = append(m.ids, x.GetId())
@@ -399,6 +417,8 @@ type fixture struct {
 	starts      int64
 	started     bool
 	rejected    string // set when the follower keeps re-requesting the same index after an answer
+	noLoop      bool   // the leader's RunServer loop is run by a RaftCluster, not by the fixture
+	extraClose  []func()
 	// follower storage faults (follower on its default storage only)
 	faulty         bool            // region saves of the follower go through the fault-injecting kv
 	saveAttempts   int             // region saves attempted by the follower
@@ -454,8 +474,12 @@ func newSrv(ctx context.Context, dir, name string, fx *fixture, base kv.Base) (*
 }
 
 func newFixture(histIdx uint64, followerRegionStorage bool) (*fixture, error) {
+	return newFixtureOpt(histIdx, followerRegionStorage, false)
+}
+
+func newFixtureOpt(histIdx uint64, followerRegionStorage, noLoop bool) (*fixture, error) {
 	slots <- struct{}{}
-	fx := &fixture{notifier: make(chan *core.RegionInfo, 10000), quit: make(chan struct{}),
+	fx := &fixture{noLoop: noLoop, notifier: make(chan *core.RegionInfo, 10000), quit: make(chan struct{}),
 		failAt: map[int]bool{}, lastSaveFailed: map[uint64]bool{}, faulty: !followerRegionStorage}
 	dir, err := os.MkdirTemp("", "c16-")
 	if err != nil {
@@ -505,7 +529,9 @@ func (fx *fixture) serve(lis net.Listener) {
 	fx.gs = grpc.NewServer()
 	pdpb.RegisterPDServer(fx.gs, &pdService{fx: fx, leader: fx.leader})
 	go fx.gs.Serve(lis)
-	go fx.leader.RunServer(fx.notifier, fx.quit)
+	if !fx.noLoop {
+		go fx.leader.RunServer(fx.notifier, fx.quit)
+	}
 }
 
 // restartLeader rebuilds the leader side the way a restart of the leader process does: the streams
@@ -543,6 +569,9 @@ func (fx *fixture) close() {
 	go func() {
 		defer cleanups.Done()
 		defer func() { <-slots }()
+		for _, f := range fx.extraClose {
+			f()
+		}
 		if fx.started {
 			fx.follower.StopSyncWithLeader()
 		}
@@ -604,6 +633,10 @@ func (fx *fixture) waitBound(k int) *tap {
 	select {
 	case <-t.bound:
 		return t
+	case <-t.done:
+		// the leader's Sync call ended before it bound the stream (a send failed): the waits that
+		// follow decide whether the follower keeps asking for the same index
+		return t
 	case <-time.After(waitLimit):
 		return nil
 	}
@@ -620,7 +653,7 @@ func (fx *fixture) waitFollower(t *tap) bool {
 			// answered (twice in a row = it will go on like that).
 			again := 0
 			for _, x := range fx.taps[t.no+1:] {
-				if x.hasReq && x.reqStart == t.reqStart {
+				if x.hasReq && x.reqStart == t.reqStart && x.member == t.member {
 					again++
 				}
 			}
@@ -677,7 +710,9 @@ type state struct {
 	nextPeer uint64
 	want     map[uint64]*core.RegionInfo // what the leader holds, by region id
 	bc       *core.BasicCluster
-	pad      string // appended to every key (long keys)
+	pad      string                 // appended to every key (long keys)
+	sink     func(*core.RegionInfo) // how the leader's cache learns a region (default: bc.PutRegion)
+	move     bool                   // every reported region must be forwarded to the syncer: flow changes move the leader
 }
 
 func (s *state) key(v uint64) []byte {
@@ -720,6 +755,10 @@ func (s *state) build(id, lo, hi uint64, b Reg, ver, conf uint64) *core.RegionIn
 
 func (s *state) put(r *mreg) {
 	s.want[r.id] = r.info
+	if s.sink != nil {
+		s.sink(r.info)
+		return
+	}
 	s.bc.PutRegion(r.info)
 }
 
@@ -829,7 +868,11 @@ func (s *state) apply(ch Change) []*core.RegionInfo {
 	}
 	opts := flowOpts(b)
 	if len(voters) > 0 {
-		opts = append(opts, core.WithLeader(voters[b.Leader%len(voters)]))
+		k := b.Leader % len(voters)
+		if s.move && r.info.GetLeader() != nil && voters[k].GetId() == r.info.GetLeader().GetId() {
+			k = (k + 1) % len(voters)
+		}
+		opts = append(opts, core.WithLeader(voters[k]))
 	}
 	r.info = r.info.Clone(opts...)
 	s.put(r)
@@ -942,9 +985,9 @@ func execSync(c SCase, excludeKnown bool) (res syncResult) {
 	}
 	if c.TargetBytes > 0 && c.PadRecords > 0 {
 		target := c.TargetBytes
-		if target > 7<<20 && c.Bulk == 0 {
-			// a full-synchronisation batch is 100 regions: above 8 MiB only with regions of > 84 KB
-			// each (keys > 42 KB), which is outside what is generated
+		if target > 7<<20 && c.PadRecords <= 100 {
+			// a batch is 100 regions: above 8 MiB only with regions of > 84 KB each (keys > 42 KB),
+			// which is outside what is generated
 			target = 7 << 20
 		}
 		if target > 7<<20 && excludeKnown && vkit.Known(keyOverMsgSize) {
@@ -1320,7 +1363,8 @@ func runSync(c SCase) (vkit.Info, error) {
 	case res.maxBytes >= 64<<10:
 		info.Class("largest-response=64KiB-1MiB")
 	}
-	info.ClassIf(c.Bulk > 0, "follower-behind>=1000-records")
+	info.ClassIf(c.Bulk >= 1000, "follower-behind>=1000-records")
+	info.ClassIf(c.TargetBytes > msgSize, "backlog>8MiB")
 	info.ClassIf(res.restarted && res.behind == 0, "leader-restart-index-behind=0")
 	info.ClassIf(res.restarted && res.behind > 0 && res.behind <= 100, "leader-restart-index-behind=1..100")
 	info.ClassIf(res.restarted && res.behind > 100, "leader-restart-index-unrelated")
